@@ -11,6 +11,7 @@ def isIdentString (s : String) : Bool :=
 
 def parseTok (s : String) : Option Tok :=
   if s == "~" then some .ws
+  else if s == "/**/" then some .ws
   else if s == "(" then some .lparen
   else if s == ")" then some .rparen
   else if s == "," then some .comma
